@@ -122,6 +122,7 @@ type thread struct {
 	state    int
 	l        layer.Layer
 	err      error
+	needPost bool
 }
 
 type handle struct {
@@ -343,10 +344,10 @@ func (m *machine) await(t *thread, expectBlock bool) string {
 			}
 			return "EErr"
 		}
-		t.l.SkipVerify()
-		if data, err := layer.VerifReadFileC12(t.l, "a.txt", len(fileData)+8); err != nil || !bytes.Equal(data, fileData) {
-			m.problem("the layer returned by Resolve does not serve its file: %v", err)
-		}
+		// SkipVerify and the first read of the layer are done by post(), once a Resolve woken by this return has reached
+		// its own external call: a fetch made now would run concurrently with that Resolve's connectivity check, and a
+		// fetch that succeeds meanwhile counts as a check (blob.lastCheck), so the check would be skipped or not by timing
+		t.needPost = true
 		obj := layer.VerifLayerObjectC12(t.l)
 		id, seen := m.objIDs[obj]
 		if !seen {
@@ -402,6 +403,19 @@ func (m *machine) afterReturn(t *thread) string {
 	return m.await(w, false)
 }
 
+// post: what the caller does with a layer Resolve returned (as fs.Mount: SkipVerify) plus a first read of its file;
+// called when no Resolve goroutine is running.
+func (m *machine) post(t *thread) {
+	if !t.needPost {
+		return
+	}
+	t.needPost = false
+	t.l.SkipVerify()
+	if data, err := layer.VerifReadFileC12(t.l, "a.txt", len(fileData)+8); err != nil || !bytes.Equal(data, fileData) {
+		m.problem("the layer returned by Resolve does not serve its file: %v", err)
+	}
+}
+
 func (m *machine) apply(o Op) {
 	switch o.Op {
 	case "start":
@@ -421,7 +435,9 @@ func (m *machine) apply(o Op) {
 		}()
 		ev := m.await(t, expectBlock)
 		m.stats["op.start"]++
-		m.record2(fmt.Sprintf("RStart %d", o.N), ev, m.afterReturn(t))
+		wake := m.afterReturn(t)
+		m.post(t)
+		m.record2(fmt.Sprintf("RStart %d", o.N), ev, wake)
 	case "step":
 		if o.T < 0 || o.T >= len(m.threads) || m.threads[o.T].state != stPaused {
 			return
@@ -435,7 +451,9 @@ func (m *machine) apply(o Op) {
 		t.resume <- o.Ok
 		ev := m.await(t, false)
 		m.stats["op.step"]++
-		m.record2(fmt.Sprintf("RStep %d %s", o.T, hx.CoqBool(o.Ok)), ev, m.afterReturn(t))
+		wake := m.afterReturn(t)
+		m.post(t)
+		m.record2(fmt.Sprintf("RStep %d %s", o.T, hx.CoqBool(o.Ok)), ev, wake)
 	case "done", "close":
 		if o.U < 0 || o.U >= len(m.handles) {
 			return
